@@ -1,12 +1,19 @@
 /* C09 implementation driver: muggle AVL tree, hash table and trie, with or
  * without the node memory pool, compiled from the repository's working tree.
  *
- * header:  avl <cap> | ht <cap> <table_size> <id|zero|low|mul|def> | trie <cap>
- * avl ops: ins k v | find k | rem k          -> result / "t <pre-order dump k=v:balance, . = NULL>" / "chk ..."
- * ht ops : put k v | find k | rem k | dump | hash k | where k  -> result / "chk ok n=<count>"
+ * header:  avl <cap> [cmp] | ht <cap> <table_size> <id|zero|low|mul|def|defb> [cmp] | trie <cap>
+ *          cmp = sgn (default: -1/0/1) | diff (clamped difference) | big (INT_MIN/0/INT_MAX) | m256 (+-256):
+ *          the comparator's MAGNITUDE; the library may only use the sign
+ * avl ops: ins k v | find k | rem k [fk fv]  -> result / ["own a b"] / "t <pre-order dump k=v:balance, . = NULL>" / "chk ..."
+ *          insq k v | remq k [fk fv]         -> result / ["own a b"] only (large trees);  check -> "t ..." / "chk ..."
+ * ht ops : put k v | find k | rem k [fk fv] | clear [fk fv] | dump | hash k | where k  -> result / ["own a b"] / "chk ok n=<count>"
  *          (hash k: value of the table's hash function on the key, i.e. the library's default
- *           string hash for kind def; where k: index of the bucket whose chain holds the key)
- * trie   : ins <hex> v | find <hex> | rem <hex> | dump   -> one result line
+ *           string hash for kind def / defb; where k: index of the bucket whose chain holds the key;
+ *           defb: the decimal string of the key with bit 7 set in every other byte)
+ * trie   : ins <hex> v | find <hex> | rem <hex> [f] | dump   -> one result line (+ "own a" after rem)
+ * fk / fv / f = 1: the free callback for keys / values is passed, 0: NULL is passed (borrowed data: the
+ * driver releases the block itself afterwards).  "own a b": how often the key / value callback was called
+ * with the block of the removed association (" BAD" appended if it was called with anything else).
  *
  * Keys and values are heap blocks released through the library's free
  * callbacks, so that ASan sees a wrong/double free of user data.  The verdict
@@ -34,10 +41,11 @@ static void *box(long long v)
 	live_user_blocks++;
 	return p;
 }
+static void str_key(long long v, char *out, size_t cap);
 static void *box_str(long long v)
 {
-	char tmp[32];
-	snprintf(tmp, sizeof(tmp), "%lld", v);
+	char tmp[40];
+	str_key(v, tmp, sizeof(tmp));
 	size_t n = strlen(tmp) + 1;
 	char *p = (char *)malloc(n); /* exact size: the hash must stop at the NUL */
 	memcpy(p, tmp, n);
@@ -50,12 +58,55 @@ static void unbox(void *pool, void *data)
 	if (data) live_user_blocks--;
 	free(data);
 }
+/* counting callbacks: which blocks the library releases during ONE remove / clear */
+static void *exp_key, *exp_val;   /* the blocks of the association being removed (NULL: any) */
+static int n_kcb, n_vcb, bad_cb;
+static void cb_reset(void *k, void *v) { exp_key = k; exp_val = v; n_kcb = n_vcb = bad_cb = 0; }
+static void unbox_k(void *pool, void *data)
+{
+	(void)pool;
+	if (data) { n_kcb++; if (exp_key && data != exp_key) bad_cb = 1; live_user_blocks--; }
+	free(data);
+}
+static void unbox_v(void *pool, void *data)
+{
+	(void)pool;
+	if (data) { n_vcb++; if (exp_val && data != exp_val) bad_cb = 1; live_user_blocks--; }
+	free(data);
+}
+static void drop(void *data) { if (data) { live_user_blocks--; free(data); } }   /* the caller's own release */
+static void own_line2(void) { printf("own %d %d%s\n", n_kcb, n_vcb, bad_cb ? " BAD" : ""); }
+
+enum { C_SGN, C_DIFF, C_BIG, C_M256 };
+static int cmp_kind;
+static int cmp_shape(int s, int64_t x, int64_t y)
+{
+	switch (cmp_kind) {
+	case C_DIFF: {
+		__int128 d = (__int128)x - (__int128)y;
+		if (d > INT32_MAX) return INT32_MAX;
+		if (d < INT32_MIN) return INT32_MIN;
+		return (int)d;
+	}
+	case C_BIG: return s < 0 ? INT32_MIN : (s > 0 ? INT32_MAX : 0);
+	case C_M256: return s * 256;
+	default: return s;
+	}
+}
 static int cmp_i64(const void *a, const void *b)
 {
 	int64_t x = *(const int64_t *)a, y = *(const int64_t *)b;
-	return x < y ? -1 : (x > y ? 1 : 0);
+	return cmp_shape(x < y ? -1 : (x > y ? 1 : 0), x, y);
 }
-static int cmp_str(const void *a, const void *b) { return strcmp((const char *)a, (const char *)b); }
+static int cmp_str(const void *a, const void *b)
+{
+	int r = strcmp((const char *)a, (const char *)b);
+	return cmp_shape(r < 0 ? -1 : (r > 0 ? 1 : 0), r, 0);
+}
+static int parse_cmp(const char *w)
+{
+	return strcmp(w, "diff") == 0 ? C_DIFF : strcmp(w, "big") == 0 ? C_BIG : strcmp(w, "m256") == 0 ? C_M256 : C_SGN;
+}
 
 static uint64_t h_id(void *d) { return (uint64_t)*(int64_t *)d; }
 static uint64_t h_zero(void *d) { (void)d; return 0; }
@@ -100,10 +151,15 @@ static void avl_report(void)
 	if (avl_bad) printf("chk FAIL %s at key %lld\n", avl_bad, avl_bad_key);
 	else printf("chk ok\n");
 }
-static void avl_line(const char *op, long long k, long long v)
+static void avl_line(const char *op, long long k, long long v, int fk, int fv)
 {
 	int64_t kk = k;
-	if (strcmp(op, "ins") == 0) {
+	int quiet = strcmp(op, "insq") == 0 || strcmp(op, "remq") == 0;
+	if (strcmp(op, "check") == 0) {
+		avl_report();
+		return;
+	}
+	if (strcmp(op, "ins") == 0 || strcmp(op, "insq") == 0) {
 		void *pk = box(k), *pv = box(v);
 		muggle_avl_tree_node_t *n = muggle_avl_tree_insert(avl, pk, pv);
 		if (!n) { unbox(NULL, pk); unbox(NULL, pv); }
@@ -111,15 +167,22 @@ static void avl_line(const char *op, long long k, long long v)
 	} else if (strcmp(op, "find") == 0) {
 		muggle_avl_tree_node_t *n = muggle_avl_tree_find(avl, &kk);
 		if (n) printf("find %lld\n", (long long)*(int64_t *)n->value); else printf("find none\n");
-	} else if (strcmp(op, "rem") == 0) {
+	} else if (strcmp(op, "rem") == 0 || strcmp(op, "remq") == 0) {
 		muggle_avl_tree_node_t *n = muggle_avl_tree_find(avl, &kk);
-		if (n) muggle_avl_tree_remove(avl, n, unbox, NULL, unbox, NULL);
+		void *pk = n ? n->key : NULL, *pv = n ? n->value : NULL;
+		cb_reset(pk, pv);
+		if (n) {
+			muggle_avl_tree_remove(avl, n, fk ? unbox_k : NULL, NULL, fv ? unbox_v : NULL, NULL);
+			if (!fk) drop(pk);      /* borrowed data: released by the caller */
+			if (!fv) drop(pv);
+		}
 		printf("rem %d\n", n ? 1 : 0);
+		own_line2();
 	} else {
 		printf("?\n");
 		return;
 	}
-	avl_report();
+	if (!quiet) avl_report();
 }
 
 /* ---------------------------------------------------------------- hash table */
@@ -145,7 +208,22 @@ static int cmp_kv(const void *a, const void *b)
 	long long x = ((const kv_t *)a)->k, y = ((const kv_t *)b)->k;
 	return x < y ? -1 : (x > y ? 1 : 0);
 }
-static long long ht_key_of(void *key) { return ht_str ? atoll((const char *)key) : (long long)*(int64_t *)key; }
+static int ht_hi;            /* string keys with bit 7 set in every other byte */
+static void str_key(long long v, char *out, size_t cap)
+{
+	snprintf(out, cap, "%lld", v);
+	if (ht_hi)
+		for (size_t i = 0; out[i]; i += 2) out[i] = (char)(out[i] | 0x80);
+}
+static long long ht_key_of(void *key)
+{
+	if (!ht_str) return (long long)*(int64_t *)key;
+	char tmp[40];
+	size_t i = 0;
+	for (const char *p = (const char *)key; *p && i + 1 < sizeof(tmp); p++) tmp[i++] = (char)(*p & 0x7f);
+	tmp[i] = 0;
+	return atoll(tmp);
+}
 static void ht_dump(void)
 {
 	size_t n = 0, cap = 64;
@@ -163,11 +241,11 @@ static void ht_dump(void)
 	fputs("\n", stdout);
 	free(a);
 }
-static void ht_line(const char *op, long long k, long long v)
+static void ht_line(const char *op, long long k, long long v, int fk, int fv)
 {
 	int64_t kk = k;
-	char ks[32];
-	snprintf(ks, sizeof(ks), "%lld", k);
+	char ks[40];
+	str_key(k, ks, sizeof(ks));
 	void *probe = ht_str ? (void *)ks : (void *)&kk;
 	if (strcmp(op, "put") == 0) {
 		void *pk = ht_str ? box_str(k) : box(k), *pv = box(v);
@@ -179,8 +257,35 @@ static void ht_line(const char *op, long long k, long long v)
 		if (n) printf("find %lld\n", (long long)*(int64_t *)n->value); else printf("find none\n");
 	} else if (strcmp(op, "rem") == 0) {
 		muggle_hash_table_node_t *n = muggle_hash_table_find(ht, probe);
-		if (n) muggle_hash_table_remove(ht, n, unbox, NULL, unbox, NULL);
+		void *pk = n ? n->key : NULL, *pv = n ? n->value : NULL;
+		cb_reset(pk, pv);
+		if (n) {
+			muggle_hash_table_remove(ht, n, fk ? unbox_k : NULL, NULL, fv ? unbox_v : NULL, NULL);
+			if (!fk) drop(pk);
+			if (!fv) drop(pv);
+		}
 		printf("rem %d\n", n ? 1 : 0);
+		own_line2();
+	} else if (strcmp(op, "clear") == 0) {
+		/* muggle_hash_table_clear, then the table is used again */
+		size_t cnt = 0, cap = 64;
+		void **held = (void **)malloc(cap * 2 * sizeof(void *));
+		for (uint64_t i = 0; i < ht->table_size; i++)
+			for (muggle_hash_table_node_t *p = ht->nodes[i].next; p; p = p->next) {
+				if (cnt == cap) { cap *= 2; held = (void **)realloc(held, cap * 2 * sizeof(void *)); }
+				held[2 * cnt] = p->key;
+				held[2 * cnt + 1] = p->value;
+				cnt++;
+			}
+		cb_reset(NULL, NULL);
+		muggle_hash_table_clear(ht, fk ? unbox_k : NULL, NULL, fv ? unbox_v : NULL, NULL);
+		for (size_t i = 0; i < cnt; i++) {
+			if (!fk) drop(held[2 * i]);
+			if (!fv) drop(held[2 * i + 1]);
+		}
+		free(held);
+		printf("clear %zu\n", cnt);
+		own_line2();
 	} else if (strcmp(op, "dump") == 0) {
 		ht_dump();
 	} else if (strcmp(op, "hash") == 0) {
@@ -226,7 +331,7 @@ static void trie_walk(muggle_trie_node_t *n, unsigned char *prefix, size_t len)
 			trie_walk(n->children[i], prefix, len + 1);
 		}
 }
-static void trie_line(const char *op, const char *hex, long long v)
+static void trie_line(const char *op, const char *hex, long long v, int f)
 {
 	size_t hl = strlen(hex);
 	char *key = (char *)malloc(hl / 2 + 2);       /* exact-size key buffer */
@@ -249,8 +354,13 @@ static void trie_line(const char *op, const char *hex, long long v)
 		muggle_trie_node_t *n = muggle_trie_find(trie, key);
 		if (n && n->data) printf("find %lld\n", (long long)*(int64_t *)n->data); else printf("find none\n");
 	} else if (strcmp(op, "rem") == 0) {
-		bool r = muggle_trie_remove(trie, key, unbox, NULL);
+		muggle_trie_node_t *old = muggle_trie_find(trie, key);
+		void *oldv = old ? old->data : NULL;
+		cb_reset(NULL, oldv);
+		bool r = muggle_trie_remove(trie, key, f ? unbox_v : NULL, NULL);
+		if (!f && r) drop(oldv);          /* borrowed data: released by the caller */
 		printf("rem %d\n", r ? 1 : 0);
+		printf("own %d%s\n", n_vcb, bad_cb ? " BAD" : "");
 	} else {
 		printf("?\n");
 	}
@@ -294,16 +404,22 @@ static void case_line(char *line)
 	long long x = 0, y = 0, z = 0;
 	if (!started) {
 		started = 1;
-		char hk[32] = "";
-		int nf = sscanf(line, "%31s %lld %lld %31s", op, &x, &y, hk);
+		char hk[32] = "", ck[32] = "";
+		int nf = sscanf(line, "%31s %lld %lld %31s %31s", op, &x, &y, hk, ck);
 		bool ok = false;
+		cmp_kind = C_SGN;
+		ht_hi = 0;
 		if (strcmp(op, "avl") == 0) {
+			char ak[32] = "";
+			if (sscanf(line, "%*s %*lld %31s", ak) == 1) cmp_kind = parse_cmp(ak);
 			avl = (muggle_avl_tree_t *)malloc(sizeof(*avl));
 			ok = muggle_avl_tree_init(avl, cmp_i64, (size_t)x);
 			if (ok) kind = K_AVL; else { free(avl); avl = NULL; }
 		} else if (strcmp(op, "ht") == 0 && nf >= 4) {
 			ht = (muggle_hash_table_t *)malloc(sizeof(*ht));
-			ht_str = strcmp(hk, "def") == 0;
+			ht_hi = strcmp(hk, "defb") == 0;
+			ht_str = strcmp(hk, "def") == 0 || ht_hi;
+			cmp_kind = parse_cmp(ck);
 			func_muggle_hash h = strcmp(hk, "id") == 0 ? h_id : strcmp(hk, "zero") == 0 ? h_zero :
 				strcmp(hk, "low") == 0 ? h_low : strcmp(hk, "mul") == 0 ? h_mul : NULL;
 			ok = muggle_hash_table_init(ht, (size_t)y, h, ht_str ? cmp_str : cmp_i64, (size_t)x);
@@ -324,12 +440,25 @@ static void case_line(char *line)
 	if (kind == K_TRIE) {
 		if (strcmp(op, "dump") == 0) { trie_dump(); return; }
 		a[0] = 0;
+		z = 1;
 		sscanf(line, "%*s %8191s %lld", a, &z);
-		trie_line(op, a, z);
+		/* rem <hex> [f]: the third word is the callback flag (default 1); ins <hex> v: the value */
+		trie_line(op, a, z, z != 0);
 		return;
 	}
-	sscanf(line, "%*s %lld %lld", &x, &y);
-	if (kind == K_AVL) avl_line(op, x, y); else ht_line(op, x, y);
+	int fk = 1, fv = 1;
+	if (strcmp(op, "rem") == 0 || strcmp(op, "remq") == 0) {
+		long long f1 = 1, f2 = 1;
+		sscanf(line, "%*s %lld %lld %lld", &x, &f1, &f2);
+		fk = f1 != 0; fv = f2 != 0;
+	} else if (strcmp(op, "clear") == 0) {
+		long long f1 = 1, f2 = 1;
+		sscanf(line, "%*s %lld %lld", &f1, &f2);
+		fk = f1 != 0; fv = f2 != 0;
+	} else {
+		sscanf(line, "%*s %lld %lld", &x, &y);
+	}
+	if (kind == K_AVL) avl_line(op, x, y, fk, fv); else ht_line(op, x, y, fk, fv);
 }
 
 int main(void) { return vdrv_main(); }
